@@ -155,6 +155,7 @@ func cntBalance(ops []content.Operator, closers []content.OpName) string {
 }
 
 func replayCNTClosing(input string) (bool, string) {
+	cntWireSetup()
 	parts := strings.SplitN(input, " ", 3)
 	if len(parts) != 3 {
 		return true, "bad replay input"
@@ -228,6 +229,7 @@ func cntGenProgram(r *Rand, ct content.Type, v pdf.Version, n int) []content.Ope
 }
 
 func runCNTState(c *Ctx) {
+	cntWireSetup()
 	r := c.R
 	nProg := 8000
 	nBuild := 4000
